@@ -14,6 +14,16 @@ CLAIMED = {
 }
 NOT_YET = {}
 CLAIMED.update({
+ "C01": dict(
+   cat="exploration", ref="DESIGN.md section 3, C01",
+   technique="runtime crash monitor: recover() around every boundary call plus a parent-process classifier of worker deaths (panic on a script goroutine, fatal error), over token soup, grammar-wild templates crossed with every value kind, corpus mutation and mutated generated programs",
+   text="Each run executes tens of thousands (thorough: 1.5M) of PRNG-determined scripts through vm.ExecuteContext with Debug=false in an environment holding one value of every constructible kind plus Go functions over such values (typed, variadic, multi-result, error-returning, panicking with error/string/arbitrary values, callbacks); every input is written to the in-flight file before it runs so a process death is attributed to it; every input that ever crashed the pinned tree is replayed first. Held = no Go panic reached the caller and no worker died outside the excluded classes.",
+   note="Trusted: the crash classifier's reading of the runtime's fatal-error text for the excluded classes (stack/memory exhaustion, concurrent map access between script goroutines). Not generated: allocation sizes between 10^4 and 2^48, range() over huge spans, self-referential containers passed to formatting, packages tables (import cannot reach os.Exit/exec)."),
+ "C19": dict(
+   cat="exploration", ref="DESIGN.md section 3, C19",
+   technique="runtime differential monitor of the core builtins against native Go (math/big progression for range, reflect/strconv/fmt for the others) plus an exhaustive structural invariant over the live package tables (runtime.FuncForPC name / reflect type identity per entry)",
+   text="range: all triples of an int64 boundary pool with progressions of at most 10000 elements, each call in a CPU/heap-limited child process so a runaway is a violation with its triple; keys/len/typeOf/kindOf/toX over a broad value universe; misuse (wrong count, wrong kind) must be an error, never a panic; tables: every one of the 443 function and 26 type entries of env.Packages/env.PackageTypes must resolve to the Go symbol it is listed under (complete enumeration, exhaustive:true for that phase).",
+   note="Trusted: runtime.FuncForPC naming, Go's reflect/strconv/fmt as reference. Not judged: toBool, bools as toInt/toFloat arguments, load, print*, ambiguous numeral spellings, spread calls with surplus elements."),
  "C03": dict(
    cat="exploration", ref="DESIGN.md section 3, C03",
    technique="runtime metamorphic monitor over parser output: minimal vs fully parenthesised spellings of generated expression trees must parse to the same tree (reflection dump) and evaluate to the same value; literal spellings compared bit-for-bit with the Go value",
